@@ -122,10 +122,17 @@ def check(ctx):
     # dispatch covers every type element gdump can write
     it = py.func('gdumpparser', 'GDumpParser._introspect_type')
     handled = set()
+    xp = [a.arg for a in it.args.args][1] if len(it.args.args) > 1 else 'xmlnode'
     for n in P.walk_no_nested(it):
-        if isinstance(n, ast.Compare) and P.src(n.left) == 'xmlnode.tag':
+        if isinstance(n, ast.Compare) and P.src(n.left) == '%s.tag' % xp:
             v = py.try_fold(n.comparators[0], m)
             handled |= set([v] if isinstance(v, str) else (v or []))
+        elif isinstance(n, ast.Dict) and n.keys and all(k is not None and isinstance(py.try_fold(k, m), str) for k in n.keys) \
+                and all(P.src(v).startswith('self.') and P.src(v)[5:] in py.methods('gdumpparser', 'GDumpParser') for v in n.values):
+            # tag -> handler table looked up with the element's tag
+            tbl = [t.id for t, v, st in P.stores_in(it) if v is n and isinstance(t, ast.Name)]
+            if any(isinstance(c, (ast.Call, ast.Subscript)) and '%s.tag' % xp in P.src(c) and any(isinstance(x, ast.Name) and x.id in tbl for x in ast.walk(c)) for c in P.walk_no_nested(it)):
+                handled |= set(py.try_fold(k, m) for k in n.keys)
     top = set(t for t in voc if voc[t].get('get-type') is not None)
     r1.check(top <= handled, 'every dumped type element is dispatched', rel, it.lineno, 'gdump.c writes %s but _introspect_type handles %s' % (sorted(top), sorted(handled)),
              detail=sorted(handled))
@@ -235,7 +242,13 @@ def check(ctx):
     r3.check(bool(l1) and bool(l2) and all(a_.value[:-len('.create_type()')] in [b_.target[:-len('.is_gtype_struct_for')] for b_ in l2] for a_ in l1) and
              gsa.equiv(gsa.cond_any(l1), gsa.cond_any(l2)), 'class <-> class struct linked both ways',
              rel, fc.lineno, 'links: %s' % [(e.target, e.value) for e in l1 + l2])
-    PAR = gsa.summarise(ctx, 'gdumpparser', 'GDumpParser.parse', inline_only=())
+    # the removal happens in parse() or in a helper it calls: summarise the method that holds the remove() call
+    gd_methods = py.methods('gdumpparser', 'GDumpParser')
+    called = set(P.call_name(c)[5:] for c in P.calls_in(gd_methods['parse']) if (P.call_name(c) or '').startswith('self.'))
+    holders = [mn for mn in ['parse'] + sorted(called) if mn in gd_methods and any(P.call_name(c) == 'self._namespace.remove' for c in P.calls_in(gd_methods[mn]))]
+    if not holders:
+        raise AnalysisError('GDumpParser.parse: removal of get-type functions (self._namespace.remove) not found in parse() or its direct helpers')
+    PAR = gsa.summarise(ctx, 'gdumpparser', 'GDumpParser.' + holders[0], inline_only=())
     pa = PAR.func
     rm_ = [e for e in PAR.effects if e.kind == 'call' and e.target == 'self._namespace.remove']
     ap = [e for e in PAR.effects if e.kind == 'call' and re.match(r'^\w+\.append$', e.target) and rm_ and any(l == e.target[:-len('.append')] for r_ in rm_ for l in r_.loops)]
@@ -245,7 +258,7 @@ def check(ctx):
         okr = gsa.impossible(PAR, e, [(r'^isinstance\(\w+, ast\.Registered\)$', False)]) and gsa.impossible(PAR, e, [(r'\.get_type is None$', True)]) and \
             gsa.impossible(PAR, e, [(r"\.get_type == 'intern'$", True)]) and gsa.allowed(PAR, e, [(r'^isinstance\(\w+, ast\.Registered\)$', True), (r'\.get_type is None$', False), (r"\.get_type == 'intern'$", False)])
     r3.check(okr, 'get-type functions of registered types are removed', rel, pa.lineno, 'get_type removal changed: %s / %s' % ([e.value[:80] for e in ap], [e.value for e in rm_]))
-    PP = gsa.summarise(ctx, 'gdumpparser', 'GDumpParser._parse_parents', inline_only=())
+    PP = gsa.summarise(ctx, 'gdumpparser', 'GDumpParser._parse_parents')
     pp = PP.func
     chain = [e for e in PP.effects if e.kind == 'store' and e.target == '%s.parent_chain' % PP.P(2)]
 
